@@ -179,6 +179,101 @@ Proof. exact run_reg_slots. Qed.
 Theorem C14_run_reg_final : forall gs ops, snd (run_reg gs ops) = map dump_rctx (rsfold [rctx_new gs] ops).
 Proof. intros gs ops. exact (rsrun_final ops _ _). Qed.
 
+(* ------------------------------------------------------------------ depth: the clauses for EVERY reachable state *)
+
+(* (d) at full strength: for every tour reachable by ANY history (guard or not), leg i is exactly (activity i, activity i+1)
+   with index i, there are total-1 such legs on a closed tour, and an open tour has one more leg holding only its last
+   activity *)
+Theorem C14_tour_legs_history : forall c ops t, trun (tour_new c) ops = Some t ->
+  length (legs t) = total t - (if c then 1 else 0) /\
+  (forall i a b, nth_error (t_acts t) i = Some a -> nth_error (t_acts t) (S i) = Some b ->
+                 nth_error (legs t) i = Some ([a; b], i)) /\
+  (c = false -> forall a, nth_error (t_acts t) (total t - 1) = Some a ->
+                 nth_error (legs t) (total t - 1) = Some ([a], total t - 1)).
+Proof. exact legs_history. Qed.
+
+(* (c) at full strength: for every reachable tour; job_count is the number of DISTINCT jobs of the activities *)
+Theorem C14_tour_counts_history : forall c ops t, trun (tour_new c) ops = Some t ->
+  total t = job_activity_count t + 1 + (if c then 1 else 0) /\
+  job_activity_count t = length (filter hasjob (t_acts t)) /\
+  job_count t = length (nodup Nat.eq_dec (jobs_of (t_acts t))) /\
+  job_count t <= job_activity_count t /\
+  (has_jobs t = true <-> job_activity_count t <> 0).
+Proof. exact counts_history. Qed.
+
+(* (a)-(c) together under the index guard: the tour is start :: abs t ++ end?, all counts are those of abs t *)
+Theorem C14_tour_guarded_history_full : forall c ops t,
+  guarded (tour_new c) ops -> trun (tour_new c) ops = Some t ->
+  t_closed t = c /\ t_acts t = start_act :: abs t ++ ends c /\ Forall (fun a => hasjob a = true) (abs t) /\
+  NoDup (t_jobs t) /\ (forall j, In j (t_jobs t) <-> exists a, In a (abs t) /\ a_job a = Some j) /\
+  job_activity_count t = length (abs t) /\ total t = length (abs t) + 1 + (if c then 1 else 0) /\
+  job_count t = length (nodup Nat.eq_dec (jobs_of (abs t))).
+Proof. exact guarded_history_full. Qed.
+
+(* the guard is EXACT: a successful insert_at into a well-formed tour keeps the depots in place iff the index is in
+   1..=total-(closed?1:0) — so the hypothesis of C14_tour_wf_history cannot be weakened *)
+Theorem C14_tour_insert_guard_exact : forall t a i t' r,
+  WFTour t -> tstep t (TInsertAt a i) = Some (t', r) -> (ends_in_place t' <-> in_guard t (TInsertAt a i)).
+Proof. exact guard_exact. Qed.
+
+(* out-of-guard stream: the model panics exactly on a depot activity / index beyond the end / removal of a depot or
+   out-of-range position; remove never panics *)
+Theorem C14_tour_panic_exact : forall t, WFweak t ->
+  (forall a i, tstep t (TInsertAt a i) = None <-> a_job a = None \/ total t < i) /\
+  (forall a, tstep t (TInsertLast a) = None <-> a_job a = None) /\
+  (forall j, tstep t (TRemove j) <> None) /\
+  (forall i, tstep t (TRemoveAt i) = None <-> forall a, nth_error (t_acts t) i = Some a -> a_job a = None).
+Proof. exact tstep_panic_iff. Qed.
+
+(* (f) over whole histories: a slot (tour + state) changes only when an operation writes it; after a deep copy, any
+   operations on the copy leave the original's observations unchanged and vice versa *)
+Theorem C14_tour_slots_frame_history : forall ops ss k,
+  Forall (fun o => swrites o <> Some k) ops -> k < length ss -> nth_error (sfold ss ops) k = nth_error ss k.
+Proof. exact sfold_frame. Qed.
+Theorem C14_tour_copy_independent : forall ss k mode ss1 r n ops,
+  sstep ss (SCopy k mode) = Some (ss1, r, n) ->
+  (Forall (fun o => swrites o <> Some k) ops -> nth_error (sfold ss1 ops) k = nth_error ss k) /\
+  (Forall (fun o => swrites o <> Some n) ops -> nth_error (sfold ss1 ops) n = nth_error ss1 n).
+Proof. exact tour_copy_independent. Qed.
+Theorem C14_registry_slots_frame_history : forall ops cs k,
+  Forall (fun o => rswrites o <> Some k) ops -> k < length cs -> nth_error (rsfold cs ops) k = nth_error cs k.
+Proof. exact rsfold_frame. Qed.
+Theorem C14_registry_copy_independent : forall cs o cs1 r n ops k,
+  (o = RSCopy k \/ exists keep, o = RSSlice k keep) -> rsstep cs o = Some (cs1, r, n) ->
+  n = length cs /\
+  (Forall (fun o => rswrites o <> Some k) ops -> nth_error (rsfold cs1 ops) k = nth_error cs k) /\
+  (Forall (fun o => rswrites o <> Some n) ops -> nth_error (rsfold cs1 ops) n = nth_error cs1 n).
+Proof. exact reg_copy_independent. Qed.
+
+(* (e) at full strength for every slot of every run (use/free/get_route/next/deep_copy/deep_slice interleaved on several
+   registries): available() lists no actor twice, an actor is offered exactly when it belongs to the registry and is
+   not held, and successful acquisitions/releases of every actor alternate *)
+Theorem C14_registry_available_nodup : forall r, WFReg r -> NoDup (available r).
+Proof. exact available_NoDup. Qed.
+Theorem C14_run_reg_offers : forall gs ops c, In c (rsfold [rctx_new gs] ops) ->
+  WFReg (c_reg c) /\ NoDup (available (c_reg c)) /\
+  exists hs tr, hrun (rctx_new gs) hs = (c, tr) /\
+    forall a, alternating a false tr /\
+              (In a (available (c_reg c)) <-> In a (r_all (c_reg c)) /\ held_after a false tr = false).
+Proof. exact run_reg_offers. Qed.
+Theorem C14_run_tour_observations : forall c ops s, In s (sfold [mkSlot (tour_new c) None] ops) ->
+  WFweak (s_tour s) /\ t_closed (s_tour s) = c /\
+  length (legs (s_tour s)) = total (s_tour s) - (if c then 1 else 0) /\
+  total (s_tour s) = job_activity_count (s_tour s) + 1 + (if c then 1 else 0) /\
+  job_count (s_tour s) = length (nodup Nat.eq_dec (jobs_of (t_acts (s_tour s)))).
+Proof. exact run_tour_observations. Qed.
+
+(* (a) for the multi-slot machine: if every insert_at of the history is inside the index guard of the slot it hits,
+   EVERY slot (originals and deep copies) keeps its depots in place *)
+Theorem C14_run_tour_guarded : forall c ops s,
+  sguarded [mkSlot (tour_new c) None] ops -> In s (sfold [mkSlot (tour_new c) None] ops) -> WFTour (s_tour s).
+Proof. exact run_tour_guarded. Qed.
+
+(* all(): lists every actor once and only fleet actors, after any history incl. deep_slice *)
+Theorem C14_registry_all_history : forall gs hs c tr, hrun (rctx_new gs) hs = (c, tr) ->
+  NoDup (r_all (c_reg c)) /\ forall a, In a (r_all (c_reg c)) -> a < length gs.
+Proof. exact registry_all_history. Qed.
+
 (* ------------------------------------------------------------------ non-vacuity *)
 Theorem C14_nonvacuous_tour :
   exists ops t, guarded (tour_new true) ops /\ trun (tour_new true) ops = Some t /\ length (abs t) = 2 /\ job_count t = 1.
